@@ -722,6 +722,12 @@ func boundVarsOf(roots []*Term) map[string]bool {
 
 // EmitSMT renders an obligation: hyps and the negated goal, sharing subterms through define-fun.
 func EmitSMT(hyps []*Term, goal *Term, logicHint string, cover bool, watch ...[]WatchTerm) string {
+	return EmitSMTWith(TS.funs, hyps, goal, cover, watch...)
+}
+
+// EmitSMTWith renders against the signature table of the term store the terms were built in (the
+// store is replaced for every verified function; obligations are rendered later, in the solver workers).
+func EmitSMTWith(funs map[string]string, hyps []*Term, goal *Term, cover bool, watch ...[]WatchTerm) string {
 	roots := append([]*Term{}, hyps...)
 	if goal != nil {
 		roots = append(roots, goal)
@@ -767,7 +773,7 @@ func EmitSMT(hyps []*Term, goal *Term, logicHint string, cover bool, watch ...[]
 	}
 	sort.Strings(names)
 	for _, n := range names {
-		sig := TS.funs[n]
+		sig := funs[n]
 		if sig == "" {
 			panic("undeclared " + n)
 		}
